@@ -1121,9 +1121,14 @@ fn run(c: &Case) -> Obs {
         "bwh" => run_bwh(c),
         "bph" => run_bph(c),
         "lzv" => run_lzv(c),
+        "lzc" => run_lzc(c),
+        "tb" => run_tb(c),
+        "sf" => run_sf(c),
+        "sfw" => run_sfw(c),
         _ => Obs { obs: "-".into(), verdict: "skip".into(), nontrivial: false },
     }
 }
 
 include!("c06_part4.rs");
+include!("c06_part5.rs");
 include!("c06_part3.rs");
